@@ -305,8 +305,8 @@ func checkLinearizable(what string, recs []rec, init interface{}, step func(st, 
 	return nil
 }
 
-// explainIllegal prints the failing partition in invocation order and marks the operations
-// that the longest partial linearization could not place.
+// explainIllegal prints the failing partition in invocation order around the first operation
+// that the longest partial linearization could not place ('!'), and names that operation.
 func explainIllegal(part []rec, info porcupine.LinearizationInfo) string {
 	placed := map[int]bool{}
 	if pl := info.PartialLinearizations(); len(pl) > 0 {
@@ -325,15 +325,47 @@ func explainIllegal(part []rec, info porcupine.LinearizationInfo) string {
 		idx[i] = i
 	}
 	sort.SliceStable(idx, func(a, b int) bool { return part[idx[a]].Call < part[idx[b]].Call })
+	firstBad := len(idx)
+	for k, i := range idx {
+		if !placed[i] {
+			firstBad = k
+			break
+		}
+	}
+	lo, hi := firstBad-25, firstBad+12
+	if lo < 0 {
+		lo = 0
+	}
+	if hi > len(idx) {
+		hi = len(idx)
+	}
 	var sb strings.Builder
-	for _, i := range idx {
+	if lo > 0 {
+		fmt.Fprintf(&sb, "      ... %d earlier operations of this partition omitted ...\n", lo)
+	}
+	for k := lo; k < hi; k++ {
+		i := idx[k]
 		mark := "   "
 		if !placed[i] {
 			mark = " ! "
 		}
 		sb.WriteString("   " + mark + part[i].String() + "\n")
 	}
-	sb.WriteString("    ('!' = not part of the longest linearizable prefix; [call,return] are ticks of one global atomic counter; g" + fmt.Sprint(finalG) + " = the harness reading the final state)\n")
+	if hi < len(idx) {
+		fmt.Fprintf(&sb, "      ... %d later operations omitted ...\n", len(idx)-hi)
+	}
+	sb.WriteString("    ('!' = not in the longest linearizable prefix; [call,return] are ticks of one global atomic counter; g" + fmt.Sprint(finalG) + " = the harness reading the final state)\n")
+	if firstBad < len(idx) {
+		r := part[idx[firstBad]]
+		var live []string
+		for _, i := range idx {
+			o := part[i]
+			if isWriter(o.Op.K) && o.Call < r.Ret && r.Call < o.Ret {
+				live = append(live, fmt.Sprintf("g%d#%d %s", o.G, o.I, o.Op))
+			}
+		}
+		fmt.Fprintf(&sb, "    first operation that cannot be placed: %s; writers overlapping it: %s\n", r, strings.Join(live, "; "))
+	}
 	return sb.String()
 }
 
